@@ -164,6 +164,56 @@ func (e *Engine) evCall(c *ast.CallExpr, st *State) []Value {
 			if e.isSpecHelper(id) {
 				return []Value{e.evQuant(id.Name, c, st)}
 			}
+		case "wfailed", "werr", "wout", "wkey", "wonly":
+			// ghost state of the abstract writer (DESIGN 2.4)
+			if e.isSpecHelper(id) {
+				w := e.ev(c.Args[0], st)
+				key := e.writerKey(w)
+				switch id.Name {
+				case "wkey":
+					return []Value{{key, types.Typ[types.Int]}}
+				case "wonly":
+					// frame: the ghost state of every other writer is what it was on entry
+					hf := e.heapGet(st, "W_failed", "(Array Int Bool)")
+					he := e.heapGet(st, "W_err", "(Array Int Ifc)")
+					old := e.entry.clone()
+					hf0 := e.heapGet(old, "W_failed", "(Array Int Bool)")
+					he0 := e.heapGet(old, "W_err", "(Array Int Ifc)")
+					if hf == hf0 && he == he0 {
+						return []Value{{"true", types.Typ[types.Bool]}}
+					}
+					e.nfresh++
+					k := fmt.Sprintf("k!w%d", e.nfresh)
+					return []Value{{fmt.Sprintf("(forall ((%s Int)) (=> (not (= %s %s)) (and (= (select %s %s) (select %s %s)) (= (select %s %s) (select %s %s)))))",
+						k, k, key, hf, k, hf0, k, he, k, he0, k), types.Typ[types.Bool]}}
+				}
+				if id.Name == "wfailed" && e.infallibleWriter(w) {
+					return []Value{{"false", types.Typ[types.Bool]}}
+				}
+				switch id.Name {
+				case "wfailed":
+					h := e.heapGet(st, "W_failed", "(Array Int Bool)")
+					return []Value{{sx("select", h, key), types.Typ[types.Bool]}}
+				case "werr":
+					h := e.heapGet(st, "W_err", "(Array Int Ifc)")
+					return []Value{{sx("select", h, key), e.typeOf(c)}}
+				default:
+					e.declareWriterTheory()
+					h := e.heapGet(st, "W_out", "(Array Int BSeq)")
+					return []Value{{sx("select", h, key), e.typeOf(c)}}
+				}
+			}
+		case "entry":
+			// entry(x): the value of x when the innermost loop whose invariant is being evaluated was entered
+			if e.isSpecHelper(id) {
+				if len(e.loopEntry) == 0 {
+					e.fail(c.Pos(), "entry() outside a loop invariant")
+				}
+				e.spec++
+				v := e.ev(c.Args[0], e.loopEntry[len(e.loopEntry)-1].clone())
+				e.spec--
+				return []Value{v}
+			}
 		case "sliceEq":
 			// same backing array, offset, length and capacity
 			if e.isSpecHelper(id) {
@@ -913,6 +963,12 @@ func (e *Engine) evBuiltin(name string, c *ast.CallExpr, st *State) []Value {
 		k := e.coerce(e.ev(c.Args[1], st), mt.Key(), st)
 		e.mapDelete(st, m, mt, k)
 		return nil
+	case "real", "imag", "complex":
+		var as []Value
+		for _, a := range c.Args {
+			as = append(as, e.ev(a, st))
+		}
+		return []Value{e.opaque(name, e.typeOf(c), as...)}
 	case "clear":
 		e.ev(c.Args[0], st)
 		e.havocAll(st)
